@@ -5,7 +5,8 @@
 (* literal) and the bracket discipline every sentence of the grammar obeys.                  *)
 (* A text is a sequence of character classes:                                                *)
 (*   the six brackets;  a = any token character;  sp, nl;  sc = semicolon;  dq, sq, bq =    *)
-(*   double, single and back quote;  sl = slash;  st = star;  hs = hash;  bs = backslash      *)
+(*   double, single and back quote;  sl = slash;  st = star;  hs = hash;  bs = backslash;     *)
+(*   dl = dollar                                                                             *)
 (* The scanner is a state machine over the text: mode (code / line comment / block comment / *)
 (* string / char / back-quoted) and the stack of open brackets.  Verdict of a text:          *)
 (*   "balanced" | "stray" (a closer without its opener, or the wrong closer) |               *)
@@ -35,7 +36,10 @@ Step(s, c, nx) ==
          [] s.mode = "blockend" -> [s EXCEPT !.mode = "code"]                    \* the `/` of `*/`
          [] s.mode = "lineopen" -> [s EXCEPT !.mode = "line"]                    \* the second `/` of `//`
          [] s.mode = "blockopen" -> [s EXCEPT !.mode = "block"]                  \* the `*` of `/*`
-         [] s.mode = "str" -> (IF c = "dq" THEN [s EXCEPT !.mode = "code"] ELSE IF c = "bs" THEN [s EXCEPT !.mode = "stresc"] ELSE s)
+         [] s.mode = "str" -> (IF c = "dq" THEN [s EXCEPT !.mode = "code"] ELSE IF c = "bs" THEN [s EXCEPT !.mode = "stresc"]
+                               \* "${" opens an interpolation: where the literal ends then depends on Quoted_String_'s brace and quote counters
+                               \* (a quote inside the interpolation does not end it) - the scanner makes no claim about such a text
+                               ELSE IF c = "dl" /\ nx = "{" THEN [s EXCEPT !.noclaim = TRUE] ELSE s)
          [] s.mode = "stresc" -> [s EXCEPT !.mode = "str"]                       \* the character after a backslash never ends the literal
          [] s.mode = "chr" -> (IF c = "sq" THEN [s EXCEPT !.mode = "code"] ELSE IF c = "bs" THEN [s EXCEPT !.mode = "chresc"] ELSE s)
          [] s.mode = "chresc" -> [s EXCEPT !.mode = "chr"]
